@@ -617,7 +617,7 @@ class UserTrackingManager:
 
         username = tracked_user.user.name
         try:
-            await self._network.send_server_messages(AddUser.Request(username))
+            await self._send_server_message(AddUser.Request(username))
 
         except Exception:
             return RETRY_TIMEOUT_NET_ERROR, "failed to send tracking message", None
@@ -640,10 +640,29 @@ class UserTrackingManager:
 
         return None, None, response
 
+    async def _send_server_message(self, message):
+        """Sends a message to the server. Sending is done in a task of its own
+        that is shielded from a cancellation of the calling tracking task: a
+        failure to send disconnects the server connection from within the
+        sending task and that disconnect cancels the tracking tasks and waits
+        for them to end (see :meth:`_on_state_changed`). If the cancellation
+        were passed on, the sending task would cancel and wait for itself
+        """
+        send_task = asyncio.ensure_future(
+            self._network.send_server_messages(message))
+        try:
+            await asyncio.shield(send_task)
+
+        except asyncio.CancelledError:
+            # Nobody is interested in the outcome of the sending anymore
+            send_task.add_done_callback(
+                lambda task: task.cancelled() or task.exception())
+            raise
+
     async def _request_untracking(self, tracked_user: TrackedUser):
         username = tracked_user.user.name
         try:
-            await self._network.send_server_messages(RemoveUser.Request(username))
+            await self._send_server_message(RemoveUser.Request(username))
 
         except Exception as exc:
             logger.debug(
